@@ -1658,6 +1658,7 @@ func ruleRemoteKey(c *Checker) {
 		}
 		ruleConnDataSetters(c, "SIDFRESH", false)
 		rulePatternSource(c, "SIDFRESH")
+		ruleConnDataFidelity(c, "SIDFRESH")
 	}
 }
 
